@@ -303,7 +303,7 @@ func TestC02(t *testing.T) {
 		"invariants after every step: deep snapshots (shape, strides, dtype, raw backing bits) of caller tensors and of the weights (hook VerifParameters) unchanged; outputs bit-identical to a freshly loaded model run on deep copies of the pre-call inputs, including 'both fail'; outputs returned earlier unchanged")
 	defer reportKnownFindings("C02")
 
-	check(t, "generated", 500, 2500, func(rt *rapid.T) {
+	check(t, "generated", 500, 3000, func(rt *rapid.T) {
 		perSample := rapid.Bool().Draw(rt, "perSample")
 		gg := genGraph(rt, ggOpts{maxNodes: 6, perSample: perSample, aliasRoutes: true, allOutputs: rapid.Bool().Draw(rt, "allOutputs")})
 		mp := gg.model(rt)
@@ -332,7 +332,7 @@ func TestC02(t *testing.T) {
 		mc.record("generated")
 	})
 
-	check(t, "sample-models", 150, 600, func(rt *rapid.T) {
+	check(t, "sample-models", 150, 800, func(rt *rapid.T) {
 		sms := sampleModels()
 		names := []string{"gru", "gru", "mlp", "scaler"}
 		if rapid.IntRange(0, 9).Draw(rt, "ndm") == 0 {
